@@ -57,6 +57,42 @@ pub fn c20_bincode_set<const N: usize, const M: usize>() {
     same_u8_set(&s, &md);
 }
 
+/// zero-sized entry types through bincode: `Set<(), N>` and `Map<(), (), N>` hold at most one entry, which takes no bytes on the
+/// wire (only the length prefix does) -- the decoded container must still hold it.  W: 0 set, 1 map.
+pub fn c20_zst<const N: usize, const W: u8>() {
+    let put = vf::any_bool();
+    let n = put as usize;
+    let mut buf = [0u8; 16];
+    let cfg = bincode::config::standard();
+    if W == 0 {
+        let mut s: Set<(), N> = empty_set();
+        if put { vf::check(s.insert(()), 100); }
+        let r = bincode::serde::encode_into_slice(&s, &mut buf, cfg);
+        let Ok(len) = r else { vf::check(false, 2004); return; };
+        vf::check(buf[0] as usize == n, 2001);
+        vf::check(len == 1, 2002);
+        let d: Result<(Set<(), N>, usize), _> = bincode::serde::decode_from_slice(&buf[..len], cfg);
+        match d {
+            Ok((s2, used)) => { vf::reach(1); vf::check(used == len && s2.len() == n && s2.contains(&()) == put && s2 == s, 2003); }
+            Err(_) => vf::check(false, 2004),
+        }
+        vf::check(s.len() == n, 811);
+    } else {
+        let mut m: Map<(), (), N> = empty_map();
+        if put { vf::check(m.insert((), ()).is_none(), 100); }
+        let r = bincode::serde::encode_into_slice(&m, &mut buf, cfg);
+        let Ok(len) = r else { vf::check(false, 2004); return; };
+        vf::check(buf[0] as usize == n, 2001);
+        vf::check(len == 1, 2002);
+        let d: Result<(Map<(), (), N>, usize), _> = bincode::serde::decode_from_slice(&buf[..len], cfg);
+        match d {
+            Ok((m2, used)) => { vf::reach(1); vf::check(used == len && m2.len() == n && m2.contains_key(&()) == put && m2 == m, 2003); }
+            Err(_) => vf::check(false, 2004),
+        }
+        vf::check(m.len() == n, 811);
+    }
+}
+
 /// a second, independent Deserializer (serde's own `value::MapDeserializer` / `SeqDeserializer`, no bincode), used for
 /// both entry points of the trait: `deserialize` and `deserialize_in_place` (which must REPLACE whatever the place held)
 pub fn c20_value_de<const N: usize, const M: usize>() {
@@ -253,6 +289,7 @@ pub fn c20_tokens<const N: usize, const M: usize>() {
 
 harnesses! {
     c20_tokens: [0, 0] [1, 1] [2, 2] [2, 3] [3, 3];
+    c20_zst: [1, 0] [1, 1] [2, 0] [2, 1];
     c20_value_de: [1, 1] [2, 2] [2, 3] [3, 3];
     c20_bincode_map: [0, 0] [1, 1] [2, 2] [3, 3] [2, 3] [1, 3];
     c20_bincode_set: [0, 0] [1, 1] [2, 2] [3, 3] [2, 3] [1, 3];
